@@ -14,7 +14,8 @@
      optimise e                 e after the three reset passes (C12's optimise_resets)                                *)
 From Coq Require Import QArith Qabs Sorted Permutation.
 From CKT Require Import Common.Base Common.Circ Model.Decompose Model.Measurement Model.ResetPasses
-  Model.Experiments Proofs.DecomposeP Proofs.MeasurementP Proofs.ResetPassesP Proofs.ExperimentsP.
+  Model.Experiments Proofs.DecomposeP Proofs.MeasurementP Proofs.ResetPassesP Proofs.ExperimentsP Proofs.ExperimentsC.
+From CKT Require Model.Weights Model.Observables Model.Grouping Proofs.GroupingP.
 Close Scope Q_scope.
 
 (* ------------------------------------------------------------------------------------------------
@@ -410,6 +411,133 @@ Print Assumptions c05_refuse_types.
 Print Assumptions c05_refuse_num_samples.
 Print Assumptions c05_refuse_suffix.
 Print Assumptions c05_refuse_1q_unseparated.
+
+(* ------------------------------------------------------------------------------------------------
+   8. composition with the models of the two oracles.
+      W := of_wdict (Weights.final_sort r) where r is what the C04 model of _generate_qpd_weights returns on the
+      probability vectors probs_of C = |coeffs| / kappa of the bases (generate_qpd_weights = final_sort of it);
+      groups_of_collection obs o = the groups the C11 model of ObservableCollection builds. *)
+
+(* ANY budget: every dictionary of the C04 model has distinct keys, each key selects a coefficient in every basis
+   (so the coefficient step of `core` neither refuses nor crashes on it) and no chosen product is 0 *)
+Theorem c05_c04_dictionary : forall C perms N tape r,
+  (forall v, In v C -> ~ (kappa_of v == 0)%Q) ->
+  Weights.sorting_perms_b (probs_of C) perms = true ->
+  Weights.gen_weights (probs_of C) perms N tape = Some (Ok r) ->
+  let W := of_wdict (Weights.final_sort r) in
+  NoDup (map s_ids W) /\
+  forall s, In s W -> exists cs, chosen_coeffs C (s_ids s) = Ok cs /\ ~ (prodQ cs == 0)%Q.
+Proof. exact c04_dictionary_ok. Qed.
+
+(* INFINITE budget, end to end for the coefficients — no hypothesis about the weights is left:
+   one coefficient per entry of the C04 dictionary, sum |coeff| = prod kappa, sign = sign of the product.
+   (Hypotheses: every basis has kappa <> 0 and a probability above the 1e-14 cut-off; the dictionary is not empty.) *)
+Theorem c05_inf_budget_end_to_end : forall gh gsx env C table og perms tape r out coeffs,
+  (forall v, In v C -> ~ (kappa_of v == 0)%Q) ->
+  Forall (fun v => exists x, In x v /\ (Extracted.Facts.nonzero_atol < x)%Q) (probs_of C) ->
+  Weights.gen_weights (probs_of C) perms Weights.PInf tape = Some (Ok r) -> r <> [] ->
+  let W := of_wdict (Weights.final_sort r) in
+  core gh gsx env C table og W = Ok (out, coeffs) ->
+  length coeffs = length r /\
+  (sumQ (map (fun c => Qabs (fst c)) coeffs) == kappa_all C)%Q /\
+  Forall2 (fun s c => exists cs, chosen_coeffs C (s_ids s) = Ok cs /\ qsign (fst c) = qsign (prodQ cs))
+          (sort_samples W) coeffs.
+Proof. exact inf_budget_coefficients. Qed.
+
+(* FINITE budgets: FULL STATEMENT (not proved): the same conclusion sum |coeff| = prod kappa for every dictionary the C04
+   model returns.  PROVED (hence _partial): the hypothesis "no chosen product is 0" is discharged from the C04 model
+   (c04_no_zero); what is MISSING is positivity of the weights the C04 model returns for a finite budget (count *
+   single_sample_weight and N * p entries), which no C04 theorem states yet — it stays a hypothesis, monitored on
+   every generated case by the harness contract weights_positive_right_length. *)
+Theorem c05_coeffs_sum_c04_partial : forall gh gsx env C table og perms N tape r out coeffs,
+  (forall v, In v C -> ~ (kappa_of v == 0)%Q) ->
+  Weights.sorting_perms_b (probs_of C) perms = true ->
+  Weights.gen_weights (probs_of C) perms N tape = Some (Ok r) ->
+  let W := of_wdict (Weights.final_sort r) in
+  core gh gsx env C table og W = Ok (out, coeffs) ->
+  W <> [] -> (forall s, In s W -> (0 < s_w s)%Q) ->
+  (sumQ (map (fun c => Qabs (fst c)) coeffs) == kappa_all C)%Q.
+Proof. exact sum_kappa_c04. Qed.
+
+(* the groups: as many as group_commuting returned; group j is built from the oracle's j-th group by
+   most_general_observable (phase 0) and its pauli_indices are exactly the ascending non-identity positions of the
+   general observable — so G in c05_counts_layout is the number of commuting groups and the measurement suffix of
+   c05_spec_exp measures exactly the support of the general observable *)
+Theorem c05_groups_from_c11 : forall obs o gs,
+  groups_of_collection obs o = Ok gs ->
+  length gs = length (Grouping.o_groups o) /\
+  forall j g, nth_error gs j = Some g ->
+    exists members, nth_error (Grouping.o_groups o) j = Some members /\
+      Grouping.most_general_observable members None = Ok (Observables.mkP 0 (og_general g)) /\
+      og_indices g = filter (GroupingP.nonid (og_general g)) (seq 0 (length (og_general g))) /\
+      StronglySorted lt (og_indices g) /\
+      (forall q, In q (og_indices g) <-> q < length (og_general g) /\ nth q (og_general g) 0 <> 0).
+Proof. exact groups_of_collection_spec. Qed.
+
+(* the projection for ANY number of partitions: whatever partition l a circuit is built for, it is built from the
+   SAMPLE's joint map ids (c05_counts_layout: `built .. (s_ids s) l ..` for every l), and inside it the placeholder
+   labelled _k is decomposed with joint[k] — never with an entry of another partition's already projected tuple *)
+Theorem c05_projection_all_partitions : forall gh gsx env d M joint l g e,
+  mapping_by_partition d = Ok M -> built gh gsx env (table_of d M) joint l g e ->
+  exists qc ids sfx ms,
+    alookup d l = Some qc /\ mapping_scan 0 (mdata qc) = Ok (ids, sfx) /\ project joint sfx = Ok ms /\
+    e = spec_exp gh gsx env qc ids ms g /\
+    forall p x k, nth_error (mdata qc) p = Some x -> suffix_of x = Some (Some k) ->
+      exists m, nth_error joint k = Some m /\
+                nth_error (assign (mdata qc) ids (Some (map Z.of_nat ms))) p = Some (set_bid m x).
+Proof. exact projection_all_partitions. Qed.
+
+(* non-vacuity of section 8 *)
+Definition exPerms : list (list nat) := [[0; 1]; [0; 1]].
+
+Example c05_ex_c04_inf :
+  (forall v, In v exCenv -> ~ (kappa_of v == 0)%Q) /\
+  Forall (fun v => exists x, In x v /\ (Extracted.Facts.nonzero_atol < x)%Q) (probs_of exCenv) /\
+  Weights.sorting_perms_b (probs_of exCenv) exPerms = true /\
+  exists r, Weights.gen_weights (probs_of exCenv) exPerms Weights.PInf [] = Some (Ok r) /\ r <> [] /\
+    exists dd coeffs, generate 20 21 exEnv exCenv (CDict exD) (ODict exOD) NPosInf (of_wdict (Weights.final_sort r))
+                      = Ok (OutDict dd, coeffs) /\ length coeffs = 4.
+Proof.
+  split; [intros v [<-|[<-|[]]]; discriminate|].
+  split; [repeat constructor; eexists; (split; [left; reflexivity|vm_compute; reflexivity])|].
+  split; [vm_compute; reflexivity|].
+  eexists. split; [vm_compute; reflexivity|]. split; [discriminate|].
+  eexists; eexists. split; vm_compute; reflexivity.
+Qed.
+
+(* a finite budget on which the C04 model needs no draw (N = 4 = 1 / p for all four joint maps) *)
+Example c05_ex_c04_finite :
+  exists r, Weights.gen_weights (probs_of exCenv) exPerms (Weights.Fin 4) [] = Some (Ok r) /\
+    of_wdict (Weights.final_sort r) <> [] /\
+    (forall s, In s (of_wdict (Weights.final_sort r)) -> (0 < s_w s)%Q).
+Proof.
+  eexists. split; [vm_compute; reflexivity|]. split; [vm_compute; discriminate|].
+  vm_compute. intros s [<-|[<-|[<-|[<-|[]]]]]; reflexivity.
+Qed.
+
+Example c05_ex_groups :
+  groups_of_collection [Observables.mkP 0 [3; 1]; Observables.mkP 0 [3; 0]]
+                       (Grouping.mkOracle [Observables.mkP 0 [3; 1]; Observables.mkP 0 [3; 0]]
+                                          [[Observables.mkP 0 [3; 1]; Observables.mkP 0 [3; 0]]])
+  = Ok [mkOG [3; 1] [0; 1]].
+Proof. vm_compute. reflexivity. Qed.
+
+(* partition 9 (third in no order that matters) gets joint[0] for its half of cut 0 although partition 7 was projected
+   before it with the cut ids [0; 1; 1] *)
+Example c05_ex_projection_partition :
+  exists M e, mapping_by_partition exD = Ok M /\ built 20 21 exEnv (table_of exD M) [1; 0] 9 (mkOG [2] [0]) e /\
+    nth_error (mdata e) 0 = Some (mkI (Gate 12) [0] []).
+Proof.
+  eexists; eexists. split; [vm_compute; reflexivity|]. split.
+  - eexists; eexists. split; [vm_compute; reflexivity|]. split; vm_compute; reflexivity.
+  - vm_compute. reflexivity.
+Qed.
+
+Print Assumptions c05_c04_dictionary.
+Print Assumptions c05_inf_budget_end_to_end.
+Print Assumptions c05_coeffs_sum_c04_partial.
+Print Assumptions c05_groups_from_c11.
+Print Assumptions c05_projection_all_partitions.
 
 (* ---------------- tie to the source (regenerated facts) ---------------- *)
 From CKT Require Import Extracted.Facts.
